@@ -221,10 +221,38 @@ class Widths:
                {"needs_bits": n.W.show(), "guards": [(src(g[0])[:60], g[1]) for g in self.path_guards],
                 "meaning": "no guard bounds the exact result to 64 bits before it leaves int64: the intermediate silently wraps modulo 2^64"}, key_func=self.public.qualname)
 
+    def check_carriers(self, l, r, n, role, node):
+        """C19.R7: the two sides of a combining node are on one carrier.  With the storage invariant (codes are Python ints iff n_word >= 64) a word
+        below 64 bits combined with a word of 64 bits or more meets as machine integer (+) Python int unless a cast guard that is true whenever either
+        operand word reaches 64 makes both sides Python ints; for arrays NumPy lifts the machine side exactly, but scalar (0-d) codes come out of the
+        multiplication as np.int64 and a Python int, and np.int64 (+) int beyond 2^63 raises OverflowError."""
+        ck = self.ck
+        if self.rule_p is None or l.ops == r.ops or not l.ops or not r.ops:
+            return
+        what = "%s: %s never meets a machine-integer side with a Python-int side (one operand word below 64 bits, the other at or above)" % (self.k.name, role)
+        if l.always_obj and r.always_obj:
+            ck.ok("C19.R7", self.k, what + " (both sides are Python ints on this path)", node)
+            return
+        if l.forced and r.forced:
+            ck.ok("C19.R7", self.k, what + " (both sides were cast to one machine type)", node)
+            return
+        names = sorted({self.canon.get(o, o) for o in (l.ops | r.ops)})
+        explicit = self.bounds(Node("code", Term.const(0), set()))          # guard-derived bounds only
+        f_ = Facts(nonneg_syms={nm + ".n_word" for nm in names})
+        bounded = all(any(nonneg(T - Term.var(nm + ".n_word"), f_) for T, slack in explicit) for nm in names)
+        if bounded:
+            ck.ok("C19.R7", self.k, what + " (the guards false on this path bound every operand word to 63 bits)", node)
+            return
+        ck.bad("C19.R7", self.k, what, "%s:%s mixes carriers" % (self.public.name, role), node,
+               {"guards": [(src(g[0])[:60], g[1]) for g in self.path_guards],
+                "meaning": "scalar operands: the narrow side is an np.int64 / np.uint64 scalar, the wide side a Python int; their sum / difference raises OverflowError once the wide code reaches 2^63"},
+               key_func=self.public.qualname)
+
     def check_mix(self, l, r, n, role, node):
         ck = self.ck
         if self.rule_p is None:
             return
+        self.check_carriers(l, r, n, role, node)
         what = "%s: %s never combines an int64 with a uint64 array (NumPy promotes the pair to float64, 53-bit mantissa)" % (self.k.name, role)
         if l.always_obj or r.always_obj:
             ck.ok(self.rule_p, self.k, what + " (an operand is always Python ints)", node)
